@@ -170,14 +170,14 @@ class Report:
             json.dump(evidence, fh, indent=1, default=str)
         print(f"[{self.prop}] obligations={n_obl} discharged={n_dis} undecided={len(self.undecided)} "
               f"bounded_evaluations={ev_total} known={len(known)} new_violations={len(new)} wall={evidence['wall_s']}s")
-        if self.errors:
-            for e in self.errors:
-                print('CHECKER-ERROR:', e)
-            return 3
+        for e in self.errors:
+            print('CHECKER-ERROR:', e)
+        for u in self.undecided:
+            print('UNDECIDED:', u)
         if new:
             return 1
+        if self.errors:
+            return 3
         if self.undecided:
-            for u in self.undecided:
-                print('UNDECIDED:', u)
             return 2
         return 0
